@@ -2,3 +2,4 @@ import XPathV.Theorems.C02
 #print axioms XPathV.Theorems.C02.reset_table_ok
 #print axioms XPathV.Theorems.C02.reset_forwarded
 #print axioms XPathV.Theorems.C02.verdict_is_local
+#print axioms XPathV.Theorems.C02.smartdesc_stops_at_filters
